@@ -22,6 +22,16 @@ def firstExit (c : Nat) : List Op → Option Nat
   | .exit d st :: ops => if d = c then some st else firstExit c ops
   | _ :: ops => firstExit c ops
 
+def isSigchld : Op → Bool
+  | .sigchld => true
+  | _ => false
+
+/-- the SIGCHLD handler runs at some point after the (first) exit of child `c` — the kernel's delivery guarantee -/
+def sigAfter (c : Nat) : List Op → Bool
+  | [] => false
+  | .exit d _ :: ops => if d = c then ops.any isSigchld else sigAfter c ops
+  | _ :: ops => sigAfter c ops
+
 def regsOf (c : Nat) (ops : List Op) : List Mode :=
   ops.filterMap fun o => match o with | .reg d m => if d = c then some m else none | _ => none
 
